@@ -29,7 +29,11 @@ def _exists_tests(ea: EffectAnalysis, include_handlers: bool = False) -> list[in
         if not include_handlers and enclosing(n.stmt, (ast.ExceptHandler,)) is not None:
             continue  # a test inside an except clause is cleanup logic, not the write-once guard
         t = n.expr
-        disj = t.values if isinstance(t, ast.BoolOp) and isinstance(t.op, ast.Or) else [t]
+        neg = isinstance(t, ast.UnaryOp) and isinstance(t.op, ast.Not)   # `if not os.path.exists(target): …` — the False branch is "exists"
+        if neg:
+            t = t.operand
+            ea.__dict__.setdefault("negated_tests", set()).add(n.id)
+        disj = t.values if isinstance(t, ast.BoolOp) and isinstance(t.op, ast.Or) and not neg else [t]
         for d in disj:
             if isinstance(d, ast.Call):
                 cn = call_name(d) or ""
@@ -90,6 +94,24 @@ def _key(e: Effect) -> str:
     return f"{e.name}({unparse(e.path_arg) if e.path_arg is not None else '…'})"
 
 
+# Calls that no effect table lists but that today's save() makes on the target / the staging area: read and confirmed, one reason each.
+CONFIRMED_CALLS = {
+    "zarr.group": "creates the root group inside the store object it is given",
+    "self._recursive_save": "writes attributes / arrays / sub-groups below the group it is given",
+    "write_skip_metadata": "closure of save(): stores the skip lists in the root group's attributes",
+    "zf.write": "adds one staged file to the open archive",
+    "super().save": "the base-class implementation (analysed itself)",
+}
+
+
+def _closed(a: EffectAnalysis, resolved: set[str]) -> bool:
+    """Closed vocabulary: every effect of the analysed function is classified by a table, is one of the hand-confirmed calls above, or is
+    a helper that was resolved and analysed itself.  Then a path verdict does not rest on the conservative 'unknown call = write' fallback
+    and does not depend on how the function is laid out — it is reported as definite."""
+    return all(e.known or e.kind == "yield" or e.name.startswith("store:") or e.name in CONFIRMED_CALLS or e.name.split(".")[-1] in resolved
+               for e in a.effects)
+
+
 def run(check, repo: Repo) -> None:
     mod, save_fn = repo.func(f"{SER}:AutoSerialize.save")
     _, cls = repo.cls(f"{SER}:AutoSerialize")
@@ -128,6 +150,9 @@ def run(check, repo: Repo) -> None:
                     helper_eas.append((h.name, EffectAnalysis(h, tparams, mod)))
                     check.analysed(f"{SER}:…{h.name}")
 
+    resolved = {h for h, _ in helper_eas}
+    closed = {id(a): _closed(a, resolved) for a in [ea] + [x for _, x in helper_eas]}
+    check.extra["closed_vocabulary"] = {lbl: closed[id(a)] for lbl, a in [("save", ea)] + helper_eas}
     # ---- R1 write-once --------------------------------------------------------------------
     tests = _exists_tests(ea)
     if not tests:
@@ -137,19 +162,19 @@ def run(check, repo: Repo) -> None:
                        "does not protect every existing target)", mod.line(save_fn))
     else:
         T = tests[0]
-        t_true = [n.id for n in cfg.nodes if n.kind == "branch" and n.test == T and n.polarity][0]
+        t_true = [n.id for n in cfg.nodes if n.kind == "branch" and n.test == T and bool(n.polarity) != (T in getattr(ea, "negated_tests", ()))][0]
         mode_o = _mode_o_branches(ea)
         for e in tef:
             dom = cfg.dominates(T, e.node)
             check.decide(dom, "C08-R1", f"save: {_key(e)} is preceded by the existence test on every path",
                          e.text, mod.line(cfg.nodes[e.node].stmt),
                          fail_detail=f"`{e.text}` touches the target on a path that has not tested "
-                                     f"os.path.exists({target})")
+                                     f"os.path.exists({target})", definite=closed[id(ea)] and e.known)
             guarded = e.node not in cfg.reachable_from(t_true, avoid=mode_o)
             check.decide(guarded, "C08-R1", f"save: {_key(e)} on an existing target only under mode 'o'",
                          e.text, mod.line(cfg.nodes[e.node].stmt),
                          fail_detail=f"`{e.text}` is reachable when the target exists and mode is not 'o': "
-                                     f"write-once mode can modify an existing target")
+                                     f"write-once mode can modify an existing target", definite=closed[id(ea)] and e.known)
         # the target variable must not be rebound after the test
         reach = cfg.reachable_from(T)
         late = [s for s in ea.target_stores if s in reach and s != T]
@@ -161,7 +186,7 @@ def run(check, repo: Repo) -> None:
         t_true_reach_exit = cfg.exit in cfg.reachable_from(t_true, avoid=mode_o)
         check.decide(not t_true_reach_exit, "C08-R1", "save: existing target and mode ≠ 'o' never returns normally",
                      "", mod.line(cfg.nodes[T].stmt),
-                     fail_detail="save can return normally when the target exists and mode is not 'o'")
+                     fail_detail="save can return normally when the target exists and mode is not 'o'", definite=closed[id(ea)])
 
     # ---- R2 confinement -------------------------------------------------------------------
     n_conf = 0
@@ -181,7 +206,7 @@ def run(check, repo: Repo) -> None:
             check.decide(ok, "C08-R2", f"{label}: {e.name} path ∈ {{target, staging}}",
                          f"{e.text} tags={sorted(ptags)}", mod.line(a.cfg.nodes[e.node].stmt),
                          fail_detail=f"`{e.text}` acts on `{unparse(e.path_arg)}` ({why}): a save may only alter its "
-                                     f"target (and its private temporary directory)")
+                                     f"target (and its private temporary directory)", definite="T'" in ptags)
     check.floor("filesystem mutator sites", n_conf, 6)
 
     # ---- R3 no partial publication ---------------------------------------------------------
@@ -196,7 +221,7 @@ def run(check, repo: Repo) -> None:
         absent = set()
         # `if os.path.exists(target): remove(target)` — on the False branch the target is absent
         for t in _exists_tests(a, include_handlers=True):
-            absent |= {n.id for n in c.nodes if n.kind == "branch" and n.test == t and not n.polarity}
+            absent |= {n.id for n in c.nodes if n.kind == "branch" and n.test == t and bool(n.polarity) == (t in getattr(a, "negated_tests", ()))}
         writes = [e for e in a.effects if e.kind == "write"]
         openers = [e for e in a.effects if e.kind in ("write", "creator") and "T" in e.path_tags and e.name.split(".")[-1] in TARGET_KIND]
         for e in writes:
@@ -210,7 +235,7 @@ def run(check, repo: Repo) -> None:
             for r in a.effects:
                 if r.kind != "remove":
                     continue
-                rk = REMOVER_KIND.get(r.name.split(".")[-1])
+                rk = None if "|" in r.name else REMOVER_KIND.get(r.name.split(".")[-1])   # a|b: file or directory chosen at run time
                 if kind is None or rk is None or rk == kind:
                     removals.add(r.node)
                 else:
@@ -221,7 +246,7 @@ def run(check, repo: Repo) -> None:
                 check.violated("C08-R3", f"{label}: failure at or after `{e.name}` removes the partial target",
                                f"the only cleanup on the failure path of `{e.text}` is `{mismatched[0].text}`, which removes a "
                                f"{REMOVER_KIND[mismatched[0].name.split('.')[-1]]} — but the target is a {kind} here: the call fails (silently with ignore_errors) and the partial "
-                               f"{kind} stays on disk", mod.line(c.nodes[mismatched[0].node].stmt))
+                               f"{kind} stays on disk", mod.line(c.nodes[mismatched[0].node].stmt), definite=closed[id(a)])
                 continue
             exempt = _completeness_marker_protects(a, e, marker_keys)
             check.decide(
@@ -230,7 +255,7 @@ def run(check, repo: Repo) -> None:
                 e.text, mod.line(c.nodes[e.node].stmt),
                 fail_detail=f"`{e.text}` writes to the target; if it (or a later step) raises, the exception "
                             f"leaves save() without the target being removed, renamed atomically or protected "
-                            f"by a completeness marker: a partial but loadable object stays on disk")
+                            f"by a completeness marker: a partial but loadable object stays on disk", definite=closed[id(a)])
     # ---- R5 overrides delegate --------------------------------------------------------------
     _rule_overrides(check, repo)
     # ---- R4 staging precedes publication ---------------------------------------------------
@@ -252,14 +277,14 @@ def run(check, repo: Repo) -> None:
                     f"{label}: `{p.name}` unreachable after a failed `{s.name}`",
                     f"{s.text} ↛ {p.text}", mod.line(c.nodes[p.node].stmt),
                     fail_detail=f"when `{s.text}` raises, control can still reach `{p.text}`: an incomplete "
-                                f"staging area is published to the target")
+                                f"staging area is published to the target", definite=closed[id(a)])
                 if s.kind == "staging" and s.name.split(".")[-1] in ("_recursive_save", "write_skip_metadata"):
                     dom = c.dominates(s.node, p.node)
                     check.decide(
                         dom, "C08-R4", f"{label}: `{s.name}` completes before `{p.name}`",
                         "", mod.line(c.nodes[p.node].stmt),
                         fail_detail=f"`{p.text}` touches the target on a path where `{s.text}` has not run: "
-                                    f"an unserialisable attribute can leave something at the target")
+                                    f"an unserialisable attribute can leave something at the target", definite=closed[id(a)])
     check.floor("staging/publication pairs", n_pairs, 4)
 
 
@@ -292,7 +317,7 @@ def _rule_overrides(check, repo: Repo) -> None:
             check.decide(not bad and delegates, "C08-R5", f"{c.name}.save delegates all effects on the target to AutoSerialize.save", "", m.line(f),
                          fail_detail=(f"`{bad[0].text}` acts on the target path inside the override" if bad else "the override does not call super().save()") +
                                      ": write-once protection and failure cleanup are decided by the base class alone — a caller-side cleanup also fires when the base class raised "
-                                     "FileExistsError and deletes the existing, complete object")
+                                     "FileExistsError and deletes the existing, complete object", definite=bool(bad))
     check.floor("save() overrides of AutoSerialize subclasses", n, 1)
 
 
